@@ -22,6 +22,9 @@ build() {
       exit 2
     fi
     echo "NOTE: std::sync interposition disabled for this build (instrumented sources did not compile)"
+    echo off > target/.interpose
+  else
+    echo on > target/.interpose
   fi
   rm -f /tmp/liquid-sim-build.$$.log
 }
@@ -29,4 +32,5 @@ if [ "${1:-}" = "build" ]; then build; exit 0; fi
 if [ "${1:-}" = "replay" ]; then build; exec ./target/release/liquid-sim replay "$REPLAY_FILE"; fi
 id="${1:?property id}"; tier="${2:-${VERIF_TIER:-quick}}"
 build
+export LIQUID_SIM_INTERPOSE="$(cat target/.interpose 2>/dev/null || echo unknown)"
 exec ./target/release/liquid-sim check "$id" --tier "$tier"
